@@ -43,7 +43,33 @@ type Execution struct {
 	Diverged    string     `json:"diverged,omitempty"`
 }
 
+// PointInfo describes an instrumentation point (from vinstr's points.json): which package-level variables the
+// statement behind it reads and writes.
+type PointInfo struct {
+	Where  string
+	Reads  []string
+	Writes []string
+}
+
+// Points is set by the driver before Run; without it only the shim's own hazards are detected.
+var Points map[int]PointInfo
+
+type epoch struct {
+	t, c, point int
+}
+
+type varState struct {
+	w     *epoch
+	r     map[int]epoch
+	raced bool
+}
+
+type lockClock struct{ w, r []int }
+
 type run struct {
+	vc       [][]int
+	locks    map[any]*lockClock
+	vars     map[string]*varState
 	threads  []*thread
 	cur      int
 	prefix   []int
@@ -63,11 +89,18 @@ func Run(bodies []Body, prefix []int, maxSteps int) *Execution {
 	for i, b := range bodies {
 		r.threads = append(r.threads, &thread{id: i, body: b, wake: make(chan struct{})})
 	}
+	r.locks, r.vars = map[any]*lockClock{}, map[string]*varState{}
+	for i := range bodies {
+		v := make([]int, len(bodies))
+		v[i] = 1
+		r.vc = append(r.vc, v)
+	}
+	vhook.Note = r.note
 	active = r
 	vhook.Hook = func(id int) { r.point(id, false) }
 	vhook.Sync = func(kind string, obj any) { r.point(-1, kind == "lock-wait") }
 	vhook.Hazard = func(what string) { r.exec.Hazards = append(r.exec.Hazards, what) }
-	defer func() { vhook.Hook, vhook.Sync, vhook.Hazard, active = nil, nil, nil, nil }()
+	defer func() { vhook.Hook, vhook.Sync, vhook.Hazard, vhook.Note, active = nil, nil, nil, nil, nil }()
 	for _, t := range r.threads {
 		t := t
 		go func() {
@@ -169,6 +202,7 @@ func (r *run) point(id int, parked bool) {
 	}
 	next := r.decide(id, me, parked)
 	if next == me {
+		r.access(me, id)
 		return
 	}
 	r.cur = next
@@ -176,6 +210,111 @@ func (r *run) point(id int, parked bool) {
 	<-r.threads[me].wake
 	if r.exec.Deadlock {
 		panic(errAbort)
+	}
+	r.access(me, id)
+}
+
+// Happens-before race detection over the explored execution (vector clocks): the statement behind point id is about
+// to run on thread t. Two accesses to a package-level variable, at least one a write, by different threads, that no
+// chain of lock release/acquire, Once or Pool hand-over orders, are a data race — whatever the interleaving the
+// scheduler happened to pick for this execution.
+func (r *run) access(t, id int) {
+	if id <= 0 || Points == nil {
+		return
+	}
+	info, ok := Points[id]
+	if !ok || (len(info.Reads) == 0 && len(info.Writes) == 0) {
+		return
+	}
+	me := r.vc[t]
+	state := func(v string) *varState {
+		s := r.vars[v]
+		if s == nil {
+			s = &varState{r: map[int]epoch{}}
+			r.vars[v] = s
+		}
+		return s
+	}
+	race := func(v string, s *varState, other epoch, otherKind, myKind string) {
+		if s.raced {
+			return
+		}
+		s.raced = true
+		a, b := Points[other.point].Where+" ("+otherKind+")", info.Where+" ("+myKind+")"
+		r.exec.Hazards = append(r.exec.Hazards, fmt.Sprintf("data race on %s: %s and %s run on different threads (%d, %d) and no lock held exclusively, Once or Pool hand-over orders them", v, a, b, other.t, t))
+	}
+	for _, v := range info.Reads {
+		s := state(v)
+		if s.w != nil && s.w.t != t && s.w.c > me[s.w.t] {
+			race(v, s, *s.w, "write", "read")
+		}
+		s.r[t] = epoch{t, me[t], id}
+	}
+	for _, v := range info.Writes {
+		s := state(v)
+		if s.w != nil && s.w.t != t && s.w.c > me[s.w.t] {
+			race(v, s, *s.w, "write", "write")
+		}
+		for u, e := range s.r {
+			if u != t && e.c > me[u] {
+				race(v, s, e, "read", "write")
+			}
+		}
+		s.w = &epoch{t, me[t], id}
+	}
+}
+
+func join(dst *[]int, src []int) {
+	if *dst == nil {
+		*dst = make([]int, len(src))
+	}
+	for i, c := range src {
+		if c > (*dst)[i] {
+			(*dst)[i] = c
+		}
+	}
+}
+
+// note receives the synchronisation edges of the vsync shim.
+func (r *run) note(kind string, obj, obj2 any) {
+	if active != r || r.cur < 0 {
+		return
+	}
+	t := r.cur
+	me := &r.vc[t]
+	lk := func(k any) *lockClock {
+		l := r.locks[k]
+		if l == nil {
+			l = &lockClock{}
+			r.locks[k] = l
+		}
+		return l
+	}
+	switch kind {
+	case "acq":
+		l := lk(obj)
+		join(me, l.w)
+		join(me, l.r)
+	case "racq", "once-seen":
+		join(me, lk(obj).w)
+	case "rel", "once-done":
+		l := lk(obj)
+		join(&l.w, *me)
+		(*me)[t]++
+	case "rrel":
+		l := lk(obj)
+		join(&l.r, *me)
+		(*me)[t]++
+	case "pool-put":
+		if obj2 != nil {
+			l := lk([2]any{obj, obj2})
+			join(&l.w, *me)
+			(*me)[t]++
+		}
+	case "pool-get":
+		if obj2 != nil {
+			join(me, lk([2]any{obj, obj2}).w)
+		}
 	}
 }
 
